@@ -20,7 +20,7 @@ import (
 // TrieOp is one step. Ops that refer to current members ("delprefix", "addext", "addprefix")
 // carry indices that the interpreter resolves against the model, so the case stays a pure value.
 type TrieOp struct {
-	Op  string `json:"op"` // add | del | delprefix | addext | addprefix | json
+	Op  string `json:"op"` // add | del | delprefix | addext | addprefix | json | addall (S + every byte value)
 	S   gen.B  `json:"s,omitempty"`
 	Idx int    `json:"idx,omitempty"`
 	Cut int    `json:"cut,omitempty"`
@@ -32,52 +32,72 @@ type C15Case struct {
 	Rebuild  bool     `json:"rebuild,omitempty"` // continue on a JSON-rebuilt trie after every step
 }
 
-// trieModel is the reference: the set M of maximal sequences.
-type trieModel map[string]struct{}
-
-func (m trieModel) hasPrefix(b string) bool { // is b a prefix of a member (or empty)?
-	if b == "" {
-		return true
-	}
-	for x := range m {
-		if strings.HasPrefix(x, b) {
-			return true
-		}
-	}
-	return false
+// trieModel is the reference: the set M of maximal sequences (members), plus, for speed, the
+// number of members that have each string as a prefix.
+type trieModel struct {
+	members map[string]struct{}
+	pref    map[string]int
 }
 
-func (m trieModel) add(b string) (absorbed, already bool) {
+func newTrieModel() *trieModel {
+	return &trieModel{members: map[string]struct{}{}, pref: map[string]int{}}
+}
+
+func (m *trieModel) size() int { return len(m.members) }
+
+func (m *trieModel) hasPrefix(b string) bool { // is b a prefix of a member (or empty)?
+	return b == "" || m.pref[b] > 0
+}
+
+func (m *trieModel) insert(x string) {
+	m.members[x] = struct{}{}
+	for i := 1; i <= len(x); i++ {
+		m.pref[x[:i]]++
+	}
+}
+
+func (m *trieModel) remove(x string) {
+	delete(m.members, x)
+	for i := 1; i <= len(x); i++ {
+		if m.pref[x[:i]]--; m.pref[x[:i]] == 0 {
+			delete(m.pref, x[:i])
+		}
+	}
+}
+
+func (m *trieModel) add(b string) (absorbed, already bool) {
 	if b == "" {
 		return false, false
 	}
 	if m.hasPrefix(b) {
 		return false, true
 	}
-	for x := range m {
-		if strings.HasPrefix(b, x) {
-			delete(m, x)
+	// members that are proper prefixes of b are absorbed
+	for i := 1; i < len(b); i++ {
+		if _, ok := m.members[b[:i]]; ok {
+			m.remove(b[:i])
 			absorbed = true
 		}
 	}
-	m[b] = struct{}{}
+	m.insert(b)
 	return absorbed, false
 }
 
-func (m trieModel) del(b string) bool {
-	found := false
-	for x := range m {
+func (m *trieModel) del(b string) bool {
+	if m.pref[b] == 0 {
+		return false
+	}
+	for x := range m.members {
 		if strings.HasPrefix(x, b) {
-			delete(m, x)
-			found = true
+			m.remove(x)
 		}
 	}
-	return found
+	return true
 }
 
-func (m trieModel) sorted() []string {
-	out := make([]string, 0, len(m))
-	for x := range m {
+func (m *trieModel) sorted() []string {
+	out := make([]string, 0, len(m.members))
+	for x := range m.members {
 		out = append(out, x)
 	}
 	sort.Strings(out)
@@ -102,8 +122,17 @@ func genC15(t *rapid.T, thorough bool) C15Case {
 	}
 	n := rapid.OneOf(rapid.IntRange(1, 8), rapid.IntRange(1, maxSteps)).Draw(t, "steps")
 	kinds := []string{"add", "add", "add", "del", "del", "delprefix", "delprefix", "addext", "addprefix", "json", "addempty"}
+	// about one history in thirty contains one step that gives a node a child for every byte value
+	// (rapid's integer generators favour small values, so the rare choice sits mid-range)
+	fullAt := -1
+	if rapid.IntRange(0, 59).Draw(t, "withFullNode") == 31 {
+		fullAt = rapid.IntRange(0, n-1).Draw(t, "fullAt")
+	}
 	for i := 0; i < n; i++ {
 		op := TrieOp{Op: rapid.SampledFrom(kinds).Draw(t, "op")}
+		if i == fullAt {
+			op = TrieOp{Op: "addall", S: str(0, 2).Draw(t, "prefix")}
+		}
 		switch op.Op {
 		case "add":
 			op.S = str(1, 6).Draw(t, "s")
@@ -141,7 +170,7 @@ func trieMembers(tr *trie.Trie, limit int) ([]string, error) {
 }
 
 // observeTrie compares every observation of tr with the model.
-func observeTrie(tr *trie.Trie, m trieModel, alphabet []byte, what string) error {
+func observeTrie(tr *trie.Trie, m *trieModel, alphabet []byte, what string) error {
 	members := m.sorted()
 	got, err := trieMembers(tr, len(members)+4)
 	if err != nil {
@@ -214,7 +243,7 @@ func rebuildTrie(tr *trie.Trie) (*trie.Trie, error) {
 
 func checkC15(c C15Case, o *Obs) error {
 	tr := trie.New()
-	m := trieModel{}
+	m := newTrieModel()
 	alphabet := []byte(c.Alphabet)
 	if len(alphabet) == 0 {
 		alphabet = []byte("ab")
@@ -297,12 +326,21 @@ func checkC15(c C15Case, o *Obs) error {
 						o.Class("delete prunes ancestors")
 					}
 				}
-				if len(m) == 0 && wasNonEmpty {
+				if m.size() == 0 && wasNonEmpty {
 					o.Class("empty trie reached again")
 				}
 			} else {
 				o.Class("delete of absent")
 			}
+		case "addall":
+			// a node with a child for every byte value
+			desc = fmt.Sprintf("Add(%q+b) for every byte b", []byte(op.S))
+			for b := 0; b < 256; b++ {
+				s := string(op.S) + string([]byte{byte(b)})
+				tr.Add([]byte(s))
+				m.add(s)
+			}
+			o.Class("node with 256 children")
 		case "json":
 			desc = "JSON-rebuild"
 			fresh, err := rebuildTrie(tr)
@@ -318,7 +356,7 @@ func checkC15(c C15Case, o *Obs) error {
 			continue
 		}
 		hist = append(hist, desc)
-		if len(m) > 0 {
+		if m.size() > 0 {
 			wasNonEmpty = true
 		}
 		what := fmt.Sprintf("after step %d of history %v", step, hist)
@@ -382,6 +420,16 @@ func exhaustiveC15(thorough bool, emit func(C15Case) bool) {
 	}
 	if !run(1, false) || !run(2, false) || !run(2, true) {
 		return
+	}
+	// nodes with a child for every byte value
+	for _, h := range [][]TrieOp{
+		{{Op: "addall"}},
+		{{Op: "add", S: gen.B("ab")}, {Op: "addall", S: gen.B("a")}, {Op: "del", S: gen.B("a\x00")}, {Op: "json"}, {Op: "del", S: gen.B("a\xff")}},
+		{{Op: "addall", S: gen.B("b")}, {Op: "addall"}, {Op: "del", S: gen.B("b")}, {Op: "add", S: gen.B("\x00\x00")}},
+	} {
+		if !emit(C15Case{Alphabet: gen.B("ab"), Ops: h}) || !emit(C15Case{Alphabet: gen.B("a\x00"), Ops: h, Rebuild: true}) {
+			return
+		}
 	}
 	if !run(3, false) {
 		return
